@@ -9,7 +9,7 @@ for mant, tier in ((0, "quick"), (1, "quick"), (2, "quick"), (3, "quick"), (5, "
     for delta in (0, 1, -1):
         for hasmin in ((0, 1) if delta == 0 and mant in (0, 3) else (0,)):
             QUERIES.append(Query("body_m%d_d%+d_min%d" % (mant, delta, hasmin), S, "harness_body",
-                                 defs=["BODY", "MANT=%d" % mant, "PLEN_DELTA=%d" % delta, "HASMIN=%d" % hasmin, "EXPF=%d" % (18 if mant == 2 else (mant % 5))], unwind=140, timeout=1500, tier=tier,
+                                 defs=["BODY", "MANT=%d" % mant, "PLEN_DELTA=%d" % delta, "HASMIN=%d" % hasmin, "EXPF=%d" % (18 if mant == 2 else (0 if mant >= 60 else mant % 5))], unwind=140, timeout=1500, tier=tier,
                                  flags=["--max-field-sensitivity-array-size", "6000"],
                                  desc="rangeproof_verify_impl, mantissa class %d, length delta %+d: spare sign bits, digit x >= p, off-curve digit, ring scalar >= n, trailing/truncated bytes rejected; ring layout and scalars handed to the ring verifier" % (mant, delta),
                                  bounds="header bytes assigned (mantissa %d, exponent assigned), all other proof bytes symbolic, commitment/generator/extra data arbitrary" % mant))
